@@ -129,11 +129,18 @@ def problem : Problem St :=
     impacted := fun _ _ => true }
 
 /-- `TalentSchedRelax::merge`, in the order given (the code panics on an empty list: `unwrap` of `None`) -/
-def mergeStates : List St → St
+def mergeStatesOld : List St → St
   | [] => { scenes := 0, maybe := 0 }
   | f :: rest =>
     let m := rest.foldl (fun (m : St) s => { scenes := m.scenes &&& s.scenes, maybe := (m.maybe ||| s.scenes) ||| s.maybe }) f
     { scenes := m.scenes, maybe := sdiff m.maybe m.scenes }
+
+/-- `TalentSchedRelax::merge` as repaired (`fix:` commit of /repo, finding D18): the scenes of the FIRST state become possible
+    scenes too before the other states are folded in (`mergeStatesOld` above is the merge as shipped before: the scenes only
+    the first state still had to shoot ended up in neither set; witnesses in `TalentschedModel.lean`) -/
+def mergeStates : List St → St
+  | [] => { scenes := 0, maybe := 0 }
+  | f :: rest => mergeStatesOld ({ scenes := f.scenes, maybe := f.maybe ||| f.scenes } :: rest)
 
 /-- insertion into a list sorted by `(key, actor)` -/
 def insertKey (x : Int × Nat) : List (Int × Nat) → List (Int × Nat)
